@@ -678,7 +678,11 @@ func (vfs *MemFS) Readlink(name string) (string, error) {
 		return "", &fs.PathError{Op: op, Path: name, Err: err}
 	}
 
-	return sl.link, nil
+	sl.mu.RLock()
+	link := sl.link
+	sl.mu.RUnlock()
+
+	return link, nil
 }
 
 // Rel returns a relative path that is lexically equivalent to targpath when
@@ -783,10 +787,16 @@ func (vfs *MemFS) RemoveAll(path string) error {
 		return nil
 	}
 
-	if c, ok := child.(*dirNode); ok && len(c.children) != 0 {
-		err = vfs.removeAll(c)
-		if err != nil {
-			return &fs.PathError{Op: op, Path: path, Err: err}
+	if c, ok := child.(*dirNode); ok {
+		c.mu.RLock()
+		empty := len(c.children) == 0
+		c.mu.RUnlock()
+
+		if !empty {
+			err = vfs.removeAll(c)
+			if err != nil {
+				return &fs.PathError{Op: op, Path: path, Err: err}
+			}
 		}
 	}
 
@@ -795,7 +805,10 @@ func (vfs *MemFS) RemoveAll(path string) error {
 	}
 
 	parent.removeChild(pi.Part())
+
+	child.Lock()
 	child.delete()
+	child.Unlock()
 
 	return nil
 }
@@ -819,7 +832,9 @@ func (vfs *MemFS) removeAll(parent *dirNode) error {
 			}
 		}
 
+		child.Lock()
 		child.delete()
+		child.Unlock()
 	}
 
 	return nil
